@@ -795,7 +795,6 @@ Theorem accepted_bodies_have_origins hl hd hs autovars switches ee fc cli_font c
 Proof.
   intros H. exact (parse_program_ok autovars switches ee _ (ProgSrc.parse_format_advs fc cli_font cli_maxlen ee) _ p H).
 Qed.
-Print Assumptions accepted_bodies_have_origins.
 
 (* C11, conditions: every leaf with a preamble command, in every condition of every body of every accepted program *)
 Theorem program_autovar_leaves hl hd hs autovars switches ee fc cli_font cli_maxlen s p :
@@ -813,7 +812,6 @@ Proof.
   intros H body e l c' HB. pose proof (accepted_bodies_have_origins _ _ _ _ _ _ _ _ _ _ _ H) as A. rewrite Forall_forall in A.
   eapply autovar_leaf_sites; [apply ProgSrc.parse_format_advs|apply A; exact HB].
 Qed.
-Print Assumptions program_autovar_leaves.
 
 (* C11, conditions: every leaf without preamble is a plain form *)
 Theorem program_plain_leaves hl hd hs autovars switches ee fc cli_font cli_maxlen s p :
@@ -827,7 +825,6 @@ Proof.
   intros H body e l HB. pose proof (accepted_bodies_have_origins _ _ _ _ _ _ _ _ _ _ _ H) as A. rewrite Forall_forall in A.
   eapply plain_leaf_sites; [apply ProgSrc.parse_format_advs|apply ProgSrc.lex_eof|apply A; exact HB].
 Qed.
-Print Assumptions program_plain_leaves.
 
 (* C11, switch: every switch statement of every block of every body of every accepted program *)
 Theorem program_switches hl hd hs autovars switches ee fc cli_font cli_maxlen s p :
@@ -852,7 +849,6 @@ Proof.
   intros H body blk l1 tg v ol cases l2 HB. pose proof (accepted_bodies_have_origins _ _ _ _ _ _ _ _ _ _ _ H) as A. rewrite Forall_forall in A.
   eapply switch_sites. apply A; exact HB.
 Qed.
-Print Assumptions program_switches.
 
 (* ====================================================================================================== *)
 (*  7. the semantics of a leaf with a preamble, and the composition with C01                               *)
@@ -956,7 +952,6 @@ Proof.
     + exists ts. split; [exact A|]. split; [exact L|]. split; [exact TY|]. intros X. congruence.
     + exists ts. split; [exact A|]. split; [exact L|]. split; [exact TY|]. intros _. exists ps, c, l1', av. auto.
 Qed.
-Print Assumptions compiled_autovar_conditions.
 
 (* ---------- the events of one evaluation of a condition ---------- *)
 (* [subseq a b]: a is b with some elements left out (same order, no element used twice) *)
@@ -999,7 +994,6 @@ Proof.
 Qed.
 
 End EVENTS.
-Print Assumptions condition_events_are_preambles_in_order.
 
 (* ====================================================================================================== *)
 (*  7b. conditions that are closed by ')' : the preamble is the statement, with no premise on the tokens    *)
@@ -1227,7 +1221,6 @@ Proof.
   intros H body e HB. pose proof (accepted_bodies_have_origins _ _ _ _ _ _ _ _ _ _ _ H) as A. rewrite Forall_forall in A.
   eapply closed_condition_preambles_are_statements; [apply ProgSrc.parse_format_advs|apply A; exact HB].
 Qed.
-Print Assumptions program_closed_conditions.
 
 (* ====================================================================================================== *)
 (*  8. examples: the hypotheses hold on a program with AutoVar leaves at several depths, a switch on a      *)
@@ -1394,15 +1387,3 @@ Example compared_var_at_an_inline_text_position :
 Proof. split; [|split]; vm_compute; repeat eexists. Qed.
 End Examples.
 
-Print Assumptions ok_cond_in.
-Print Assumptions ok_switch_in.
-Print Assumptions parse_block_ok.
-Print Assumptions parse_program_ok.
-Print Assumptions autovar_leaf_sites.
-Print Assumptions plain_leaf_sites.
-Print Assumptions switch_sites.
-Print Assumptions advs_length_inj.
-Print Assumptions closed_condition_preambles_are_statements.
-Print Assumptions autovar_leaf_is_command_then_plain_leaf.
-Print Assumptions command_statement_step.
-Print Assumptions command_then_switch_steps.
